@@ -30,6 +30,9 @@ inductive Val where
   | str (s : String)
   | arr (et : ElemT) (xs : List Val)
   | map (kvs : List (String × Val))                 -- map[string]interface{}
+  /-- `map[string]T` for an element type `T` other than `interface{}`: `zero` is `reflect.Zero(T)` (what a
+      missing key reads as), `isNil` tells the nil map from the empty one -/
+  | tmap (zero : Val) (isNil : Bool) (kvs : List (String × Val))
   | set (et : ElemT) (ks : List Val)                -- map[K]struct{} lookup constants
   | struct (name : String) (isPtr : Bool) (fields : List (String × Val))
   | fn (id : String)                                 -- environment function, by behaviour id
@@ -69,6 +72,7 @@ def toSexp : Val → Sexp
   | .str s => .list [.atom "s", Sexp.str s]
   | .arr et xs => .list (.atom "arr" :: elemTToSexp et :: listToSexp xs)
   | .map kvs => .list (.atom "map" :: kvsToSexp kvs)
+  | .tmap z n kvs => .list (.atom "tmap" :: toSexp z :: Sexp.bool n :: kvsToSexp kvs)
   | .set et ks => .list (.atom "set" :: elemTToSexp et :: listToSexp ks)
   | .struct n p fs => .list (.atom "struct" :: Sexp.str n :: Sexp.bool p :: kvsToSexp fs)
   | .fn id => .list [.atom "fn", Sexp.str id]
@@ -102,6 +106,11 @@ partial def ofSexp : Sexp → Option Val
         | .list [k, v] => do pure ((← k.asStr), (← ofSexp v))
         | _ => none
       pure (.map kvs)
+  | .list (.atom "tmap" :: z :: n :: kvs) => do
+      let kvs ← kvs.mapM fun
+        | .list [k, v] => do pure ((← k.asStr), (← ofSexp v))
+        | _ => none
+      pure (.tmap (← ofSexp z) (← n.asBool) kvs)
   | .list (.atom "set" :: et :: xs) => do
       let et ← elemTOfSexp et
       let vs ← xs.mapM ofSexp
